@@ -360,6 +360,8 @@ FAILS = (
     ("invalid-tg-error-mode", dict(reportingMode="error", _invalid=True)),
     ("ok", dict()), ("ok-overrides", dict(minTimestamp=-1.0, maxTimestamp=3.0)), ("ok-minlen", dict(minimumIntervalLength=0.5)),
     ("ok-invalid-silence", dict(reportingMode="silence", _invalid=True)),
+    # the environment refuses the write: the process has no file descriptor left when save() opens the destination (EMFILE)
+    ("no-descriptor-left", dict(_nofds=True)),
 )
 
 
@@ -379,10 +381,31 @@ def _check_save(case):
         fd.write(original)
     before = snap_tg(tg)
     args = dict(format=fmt, includeBlankSpaces=blanks)
+    nofds = kw.pop("_nofds", False)
     args.update(kw)
-    st, r, out = call(tg.save, fn, **args)
-    with open(fn, "rb") as fd:
-        now = fd.read()
+    if nofds:
+        import resource
+        soft, hard = resource.getrlimit(resource.RLIMIT_NOFILE)
+        resource.setrlimit(resource.RLIMIT_NOFILE, (min(256, soft), hard))
+        held = []
+        try:
+            try:
+                while True:
+                    held.append(os.open(os.devnull, os.O_RDONLY))
+            except OSError:
+                pass
+            st, r, out = call(tg.save, fn, **args)
+        finally:
+            for fd_ in held:
+                os.close(fd_)
+            resource.setrlimit(resource.RLIMIT_NOFILE, (soft, hard))
+    else:
+        st, r, out = call(tg.save, fn, **args)
+    if os.path.exists(fn):
+        with open(fn, "rb") as fd:
+            now = fd.read()
+    else:
+        now = b"<the file no longer exists>"
     viols = []
     tag = f"save(format={args['format']!r}, includeBlankSpaces={blanks}, {kw}) [{name}] on {SAVE_TGS[ti]}"
     if snap_tg(tg) != before:
